@@ -1,5 +1,5 @@
 /-
-  C06 (part c) — deposit, FRA and the OIS par rate: what the code computes, where it departs from the
+  C06 (part c) — deposit, FRA and the OIS par rate: what the code computes, where it departs (deposit, FRA) from the
   specification (kernel-checked counterexamples over ℚ behind the known findings), and the partial theorems
   under the hypotheses the proofs force.
 -/
@@ -137,23 +137,28 @@ end field
 section ordered
 variable {K : Type} [Field K] [LinearOrder K] [IsStrictOrderedRing K]
 
-/-- The full statement for `OIS.swap_rate` (no guard in the code; positive annuity assumed). -/
-def OisParRateZeroesValue (K : Type) [Field K] [LinearOrder K] [IsStrictOrderedRing K] : Prop :=
-  ∀ (df : Int → K) (idx : IndexCurve K) (ff : Option K) (vd : Int) (s : Bool)
-    (cpn N spread : K) (fp lp : List (Period K)),
-    cpn ≠ 0 → N ≠ 0 → 0 < annuity df vd fp →
-    swapValue df idx ff (setFixedRate (mkSwap s cpn N spread fp lp)
-      (oisSwapRate abs df idx ff (mkSwap s cpn N spread fp lp) vd)) vd = 0
-
-/-- What the OIS struck at its own `swap_rate` is worth: 0 for a pay-fixed OIS, twice the floating leg
-for a receive-fixed one (the PAY sign of the floating leg is not undone before dividing). -/
-theorem ois_value_at_swap_rate (df : Int → K) (idx : IndexCurve K) (ff : Option K) (vd : Int) (s : Bool)
+/-- `OIS.swap_rate` is the floating leg's value per unit notional (receiver's view) over the annuity —
+for both leg types (the PAY sign of the floating leg is undone, commit 2a49ff7) — provided the coupon is not
+zero (`pv01` still divides by it: open finding `C06/par-rate-coupon-zero`). -/
+theorem ois_swap_rate_eq (df : Int → K) (idx : IndexCurve K) (ff : Option K) (vd : Int) (s : Bool)
     (cpn N spread : K) (fp lp : List (Period K)) (hc : cpn ≠ 0) (hN : N ≠ 0) (hA : 0 < annuity df vd fp) :
-    swapValue df idx ff (setFixedRate (mkSwap s cpn N spread fp lp)
-        (oisSwapRate abs df idx ff (mkSwap s cpn N spread fp lp) vd)) vd
-      = if s then 0 else 2 * floatValue df idx ff (mkSwap s cpn N spread fp lp).float vd := by
+    oisSwapRate abs df idx ff (mkSwap s cpn N spread fp lp) vd
+      = signed (!s) (floatValue df idx ff (mkSwap s cpn N spread fp lp).float vd) / annuity df vd fp / N := by
   have hp : pv01 abs df (mkSwap s cpn N spread fp lp) vd = annuity df vd fp := by
     rw [pv01_eq_abs_annuity df vd s cpn N spread fp lp hc hN, abs_of_pos hA]
+  have hn : (mkSwap s cpn N spread fp lp).fixed.notional = N := rfl
+  have hs : (mkSwap s cpn N spread fp lp).float.isPay = !s := rfl
+  unfold oisSwapRate
+  simp only [hp, hn, hs]
+  cases s <;> simp [signed]
+
+/-- C06 **par_rate_zeroes_value for OIS**: with a non-zero coupon and notional and a positive annuity, the
+OIS struck at its own `swap_rate` (`set_fixed_rate`) is worth exactly zero — pay-fixed and receive-fixed
+alike, for any curve, first fixing, spread, payment lag, schedules. -/
+theorem ois_par_rate_zeroes_value (df : Int → K) (idx : IndexCurve K) (ff : Option K) (vd : Int) (s : Bool)
+    (cpn N spread : K) (fp lp : List (Period K)) (hc : cpn ≠ 0) (hN : N ≠ 0) (hA : 0 < annuity df vd fp) :
+    swapValue df idx ff (setFixedRate (mkSwap s cpn N spread fp lp)
+        (oisSwapRate abs df idx ff (mkSwap s cpn N spread fp lp) vd)) vd = 0 := by
   have hA' : annuity df vd fp ≠ 0 := ne_of_gt hA
   have hfix : ∀ r : K, fixedValue df (setFixedRate (mkSwap s cpn N spread fp lp) r).fixed vd
       = signed s (r * N * annuity df vd fp) := by
@@ -162,43 +167,34 @@ theorem ois_value_at_swap_rate (df : Int → K) (idx : IndexCurve K) (ff : Optio
     rw [this, fixed_value_closed]; simp
   have hfl : ∀ r : K, (setFixedRate (mkSwap s cpn N spread fp lp) r).float = (mkSwap s cpn N spread fp lp).float :=
     fun _ => rfl
-  have hn : (mkSwap s cpn N spread fp lp).fixed.notional = N := rfl
-  unfold swapValue oisSwapRate
-  rw [hfix, hp]
-  simp only [hfl, hn]
+  unfold swapValue
+  rw [hfix, ois_swap_rate_eq df idx ff vd s cpn N spread fp lp hc hN hA]
+  simp only [hfl]
   cases s
-  · simp only [signed, Bool.false_eq_true, if_false]
+  · simp only [signed, Bool.false_eq_true, if_false, Bool.not_false, if_true]
     field_simp
     ring
-  · simp only [signed, if_true]
+  · simp only [signed, if_true, Bool.not_true, Bool.false_eq_true, if_false]
     field_simp
     ring
 
-/-- C06 **par_rate_zeroes_value for OIS** (partial: the fixed leg is PAY). -/
-theorem ois_par_rate_zeroes_value_partial (df : Int → K) (idx : IndexCurve K) (ff : Option K) (vd : Int)
-    (cpn N spread : K) (fp lp : List (Period K)) (hc : cpn ≠ 0) (hN : N ≠ 0) (hA : 0 < annuity df vd fp) :
-    swapValue df idx ff (setFixedRate (mkSwap true cpn N spread fp lp)
-        (oisSwapRate abs df idx ff (mkSwap true cpn N spread fp lp) vd)) vd = 0 := by
-  rw [ois_value_at_swap_rate df idx ff vd true cpn N spread fp lp hc hN hA]; rfl
-
-/-- C06 counterexample (known finding `C06/ois-swap-rate-sign-receive-fixed`): df(1) = 1/2, one period
-[0,1], receive-fixed: the floating leg is worth −1/2, the OIS struck at its reported rate −1 is worth −1. -/
-theorem ois_par_rate_fails_receive_fixed : ¬ OisParRateZeroesValue ℚ := by
-  intro h
+/-- Non-vacuity, on the witness that used to refute the statement before commit 2a49ff7: df(1) = 1/2, one
+period [0,1], receive-fixed. -/
+example : swapValue (fun d => if d = 1 then (1 / 2 : ℚ) else 1) ⟨fun d => if d = 1 then 1 / 2 else 1, fun _ _ => 1⟩ none
+    (setFixedRate (mkSwap false 1 1 0 [⟨0, 1, 1, 1⟩] [⟨0, 1, 1, 1⟩])
+      (oisSwapRate abs (fun d => if d = 1 then (1 / 2 : ℚ) else 1) ⟨fun d => if d = 1 then 1 / 2 else 1, fun _ _ => 1⟩
+        none (mkSwap false 1 1 0 [⟨0, 1, 1, 1⟩] [⟨0, 1, 1, 1⟩]) 0)) 0 = 0 := by
   have hA : annuity (fun d => if d = 1 then (1 / 2 : ℚ) else 1) 0 [⟨0, 1, 1, 1⟩] = 1 / 2 := by
     simp [annuity, fixedCoupons, pv_cons, pv_nil, Flow.amount]
-  have h0 := h (fun d => if d = 1 then 1 / 2 else 1) ⟨fun d => if d = 1 then 1 / 2 else 1, fun _ _ => 1⟩ none 0
-    false 1 1 0 [⟨0, 1, 1, 1⟩] [⟨0, 1, 1, 1⟩] (by norm_num) (by norm_num) (by rw [hA]; norm_num)
-  rw [ois_value_at_swap_rate _ _ _ _ _ _ _ _ _ _ (by norm_num) (by norm_num) (by rw [hA]; norm_num)] at h0
-  have hv : floatValue (fun d => if d = 1 then (1 / 2 : ℚ) else 1)
-      ⟨fun d => if d = 1 then 1 / 2 else 1, fun _ _ => 1⟩ none
-      (mkSwap false 1 1 0 [⟨0, 1, 1, 1⟩] [⟨0, 1, 1, 1⟩]).float 0 = -(1 / 2) := by
-    rw [float_leg_eq_sum _ _ _ _ _ (by simp [mkSwap, mkFloatLeg])]
-    simp [mkSwap, mkFloatLeg, floatFlows, floatCoupons, principalFlow, pv_cons, pv_nil, Flow.amount, fwdFlow,
-      fwdRate, signed]
-    norm_num
-  rw [hv] at h0
-  norm_num at h0
+  exact ois_par_rate_zeroes_value _ _ _ _ _ _ _ _ _ _ (by norm_num) (by norm_num) (by rw [hA]; norm_num)
+
+/-- At coupon 0 the OIS par rate is still undefined (`pv01 = 0/0`): over a field the rate degenerates to
+`x / 0 = 0`, on IEEE doubles to nan — open finding `C06/par-rate-coupon-zero`. -/
+theorem ois_swap_rate_zero_coupon (df : Int → K) (idx : IndexCurve K) (ff : Option K) (vd : Int) (s : Bool)
+    (N spread : K) (fp lp : List (Period K)) :
+    oisSwapRate abs df idx ff (mkSwap s 0 N spread fp lp) vd = 0 := by
+  unfold oisSwapRate
+  simp [pv01_zero_coupon]
 
 end ordered
 
